@@ -47,7 +47,7 @@ spec:     spec/CommentNorm.tla        the comment rule on token sequences <<clas
           spec/FieldComment.tla       worlds [paragraphs of fields [n, s, v, comment [handle, lines]], held elements,
                                       next handle]; ONE pure outcome operator per public call: SetOut (10 comment
                                       modes), CmtOut, DelOut, MoveOut, SortOut, NewOut, DictOut, KvOut, JoinOut,
-                                      FileParts; Ownership, LinesWF
+                                      FaultOut, FileParts; Ownership, LinesWF
           spec/FieldCommentMC.tla     closed scenarios uniq / dup / ctor, every history of <= 2 (3) calls:
                                       InvOwnership, InvLinesWF, InvDetachAttach, InvModeAlgebra, ErrAtomic, Frame,
                                       ModeLaw, MovesWhole; EDGE lines with statement / alternative / as-built outcome
@@ -117,7 +117,12 @@ API surface (notes/API_SURFACE.md)
     from_token_or_element, is_* properties, text, str, SPACE / COMMA singletons
   insert() of paragraphs, free comments between paragraphs                out of scope (C10)
 
-findings (KNOWN): see the list below.
+findings (KNOWN): see the list below (X17-blank-comment-line is modelled as variant "K" of the comment rule and found by TLC
+          itself; X17-dup-append-parent is recognised by its exact signature in comment_x17.World.kvparent_known).
+observations in the unspecified zone (executed, not judged): format_field(stock, name, sep, []) raises IndexError for a list but
+          ValueError for an empty iterator; a stream ending in a comment token is refused as a list but formatted into a field that
+          ends in a comment line when handed in as an iterator (or followed by separator tokens); a plain str as field_comment
+          becomes one comment line per CHARACTER.
 """
 import json
 import os
